@@ -462,6 +462,7 @@ func checkC06(w *World, r *Report) {
 	checkPolicyQueriesPure(w, r)
 	checkNoNestedTopLevelRender(w, r, reach)
 	checkEveryFilterBecomesANode(w, r)
+	checkSandboxedIncludeSetsFlag(w, r)
 
 	// ---- R06.5: conversions of FilterFunc/FunctionFunc values to interfaces in render-reachable code
 	n65 := 0
@@ -1149,4 +1150,77 @@ func checkEveryFilterBecomesANode(w *World, r *Report) {
 		}
 	}
 	r.floor("filter-parsing loops", n, 1)
+}
+
+// checkSandboxedIncludeSetsFlag — R06.9: `include … sandboxed` always turns the sandbox on.  In
+// IncludeNode.Render (and the helpers it is split into) every nested Render of the included
+// template is reached only on paths on which either the node's sandboxed flag was found false or
+// `true` was stored into the sandboxed flag of a render context.  An arm ordering that handles
+// `only` first and never looks at `sandboxed` renders `include … only sandboxed` unconfined.
+func checkSandboxedIncludeSetsFlag(w *World, r *Report) {
+	inc := w.ssaFunc(w.method("IncludeNode", "Render"))
+	isFlagTrueStore := func(in ssa.Instruction) bool {
+		st, ok := in.(*ssa.Store)
+		if !ok {
+			return false
+		}
+		if _, ok := fieldAddr(st.Addr, "RenderContext", "sandboxed"); !ok {
+			return false
+		}
+		if isConstBool(st.Val, true) {
+			return true
+		}
+		// ctx.sandboxed || n.sandboxed : true whenever the node's flag is
+		var facts []condFact
+		expandCond(st.Val, false, &facts, 0)
+		for _, cf := range facts {
+			if _, ok := fieldLoad(origin(cf.v), "IncludeNode", "sandboxed"); ok && !cf.truth {
+				return true
+			}
+		}
+		if bo, ok := st.Val.(*ssa.BinOp); ok && (bo.Op == token.OR || bo.Op == token.LOR) {
+			for _, o := range []ssa.Value{bo.X, bo.Y} {
+				if _, ok := fieldLoad(origin(o), "IncludeNode", "sandboxed"); ok {
+					return true
+				}
+			}
+		}
+		// the flag itself copied
+		if _, ok := fieldLoad(origin(st.Val), "IncludeNode", "sandboxed"); ok {
+			return true
+		}
+		return false
+	}
+	flagFalseEdge := func(b *ssa.BasicBlock, i int) bool {
+		for _, cf := range edgeFacts(b, i) {
+			if condImplies(cf.v, cf.truth, func(v ssa.Value, truth bool, resolve func(ssa.Value) ssa.Value) bool {
+				if truth {
+					return false
+				}
+				_, ok := fieldLoad(origin(resolve(v)), "IncludeNode", "sandboxed")
+				return ok
+			}) {
+				return true
+			}
+		}
+		return false
+	}
+	n := 0
+	instrsOf(inc, func(in ssa.Instruction) {
+		c, ok := in.(ssa.CallInstruction)
+		if !ok || !c.Common().IsInvoke() || c.Common().Method.Name() != "Render" {
+			return
+		}
+		if _, isDefer := in.(*ssa.Defer); isDefer {
+			return
+		}
+		n++
+		construct := "a sandboxed include renders in a sandboxed context"
+		if found, path := existsPathAvoiding(inc, in, isFlagTrueStore, flagFalseEdge); found {
+			r.bad("R06.9", ssaName(inc), construct, w.posOf(in.Pos()), "the included template can be rendered on a path on which the node's `sandboxed` flag was never found false and no context was put into sandbox mode (path "+strings.Join(path, " → ")+"): for that combination of tag options `include … sandboxed` runs unconfined")
+		} else {
+			r.ok("R06.9", ssaName(inc), construct, w.posOf(in.Pos()), "every path tests n.sandboxed (false) or stores true into the context's flag", true)
+		}
+	})
+	r.floor("nested renders in IncludeNode.Render", n, 1)
 }
